@@ -204,11 +204,19 @@ func VH_C04_Placement() {
 	pre := symStringIn(symChoice(2), "a {")
 	post := symStringIn(symChoice(2), "a }")
 	body := pre + core + post
-	kind := symChoice(2) // 0: verbatim block, 1: comment
+	kind := symChoice(3) // 0: verbatim block, 1: comment, 2: literal text with a backslash-escaped opener
 	p := vhC04Places[symChoice(len(vhC04Places))]
 	symTag("place:" + p.name + " core:" + core)
 	var unit string
-	if kind == 0 {
+	if kind == 2 {
+		// \{{ ... }} is literal text (how much of the backslash survives is a known finding of C04.around;
+		// here only placement independence is asked: the same bytes as at top level, nothing evaluated)
+		symTag("escaped-text")
+		if core == "{# c #}" || core == "#}{{ x }}" || core == "x" || core == "{{x}}{{ y }}" {
+			symAssume(false) // cores that are not one escaped opener followed by text
+		}
+		unit = pre + "\\" + core + post
+	} else if kind == 0 {
 		unit = "{% verbatim %}" + body + "{% endverbatim %}"
 	} else {
 		symTag("comment")
